@@ -105,6 +105,10 @@ class Ctx:
         except Undecided as e:
             self.undecided(getattr(f, '__name__', 'rule'), 'rule could not be evaluated on this tree', None, str(e)[:400])
             return None
+        except ZeroDivisionError as e:
+            # a symbolic quotient whose denominator the engine reduced to zero (a formula it mis-read, not a fact about the code)
+            self.undecided(getattr(f, '__name__', 'rule'), 'rule could not be evaluated on this tree', None, 'symbolic division by zero while reading a formula: %s' % str(e)[:200])
+            return None
 
     def note(self, text):
         self.notes.append(text)
